@@ -5,6 +5,15 @@ import XmpProps.C16
 import XmpProps.C17
 import XmpProps.C18
 import XmpProps.C20
+import XmpProofs.WorkBoundGates
+import XmpProofs.WorkBoundXzZip
+import XmpProofs.WorkBoundIff
+import XmpProofs.WorkBoundUmx
+import XmpProofs.WorkBoundPP
+import XmpProofs.WorkBoundLzw
+import XmpProofs.WorkBoundLha
+import XmpProofs.WorkBoundMmcmp
+import XmpProps.C03
 /-!
 # C02 — work and memory bounded by real input size
 
@@ -185,5 +194,293 @@ theorem C02_sample_alloc_le (flags : Nat) (h : Sample.Hdr) (f : Option Bytes) (b
 /-! Non-vacuity: the hypotheses of the re-exports are satisfiable (instances proved with the owners). -/
 example := C02_next_order_terminates Seq.exMod_wf Seq.exMod_ordwf (seq := 0) (by decide) 2 (by decide) false
 example : (Tick.prepare 49170 100 1 250 1 125, Tick.capTicks) = (6146, 6146) := by decide
+
+end Xmp.C02
+
+/-! ## Decoders and container walkers as bounded-work functions
+
+Each loop of the modelled depackers (`XmpModel.Gates`, `Lzw`, `PowerPacker`) and of the IFF chunk walker
+(`XmpModel.IffWalk`) is re-expressed as a counted step function (`XmpModel.WorkBound`: `Work.run` keeps "fuel ran
+out" apart from every result of the code).  The theorems below say, for **every** input byte string:
+`EndsWithin step fuel s n` — the loop started in `s` ends by itself (never by lack of the model's fuel) within `n`
+iterations, `n` being `bytes / k + 1` for the `k` bytes (bits) every continuing iteration consumes; the `=`-part
+says the counted loop *is* the owning model (whose tie to the C is the C08/C09 correspondence), so the model's
+termination is the code's. -/
+namespace Xmp.C02
+open Xmp.Work Xmp.Gates
+
+/-- the ceiling the models use is the generated `LIBXMP_DEPACK_LIMIT` -/
+theorem C02_depack_limit_models : Container.depackLimit = Gen.DepackLimits.depackLimit := by decide
+
+/-- **C02_arc_work** (`arc_read`): at most `|file|/2 + 1` entry-loop iterations — every entry, whatever compressed
+size it declares, moves the walk at least 2 bytes forward (`arcStep_progress`) -/
+theorem C02_arc_work (env : ArcEnv) (f : Bytes) :
+    EndsWithin (arcStep env f) (f.length + 1) (0, 0) (f.length / 2 + 1) ∧
+    arcDepack env f = (run (arcStep env f) (f.length + 1) (0, 0)).outD none ∧
+    (∀ s s', (arcStep env f s).succ? = some s' → s.1 + 2 ≤ f.length ∧ s.1 + 2 ≤ s'.1) :=
+  ⟨(arc_work env f).1, (arc_work env f).2, arcStep_progress env f⟩
+
+/-- **C02_arc_ceiling**: `arc_unpack` is never asked for more than the ceiling (guarding it changes nothing), and
+what is returned is a slice of the file or the answer to such a request -/
+theorem C02_arc_ceiling (env : ArcEnv) (f : Bytes) :
+    arcDepack env.capped f = arcDepack env f ∧
+    (∀ out, arcDepack env f = some out →
+      out.length ≤ f.length ∨ ∃ m w i u, u ≤ env.limit ∧ env.unpack m w i u = some out) :=
+  ⟨arcDepack_capped env f, fun out h => arcLoop_out env f out _ 0 0 h⟩
+
+/-- **C02_arcfs_work** (`arcfs_read`): the declared entry-table length is backed by bytes (36 per entry between
+the header and the data area), so at most `(|file| − 96)/36 + 1` iterations -/
+theorem C02_arcfs_work (env : ArcEnv) (f : Bytes) (el dofs : Nat) (h : arcfsHeader f = some (el, dofs)) :
+    EndsWithin (arcfsStep env f dofs) (el / 36 + 1) (el / 36, 96) ((f.length - 96) / 36 + 1) ∧
+    arcfsDepack env f = (run (arcfsStep env f dofs) (el / 36 + 1) (el / 36, 96)).outD none ∧
+    96 + el / 36 * 36 ≤ f.length ∧ arcfsDepack env.capped f = arcfsDepack env f :=
+  ⟨(arcfs_work env f el dofs h).1, (arcfs_work env f el dofs h).2, (arcfs_count_le f el dofs h).1, arcfsDepack_capped env f⟩
+
+/-- **C02_lzx_work** (`lzx_read`): at most `(|file| − 10)/31 + 1` iterations — every entry moves the walk at least
+31 bytes forward; an extraction is only started with a (merged) total within the ceiling -/
+theorem C02_lzx_work (env : LzxEnv) (f : Bytes) :
+    EndsWithin (lzxStep env f) (f.length + 1) (10, {}) ((f.length - 10) / 31 + 1) ∧
+    (10 ≤ f.length → slice f 0 3 = [0x4c, 0x5a, 0x58] →
+      lzxDepack env f = (run (lzxStep env f) (f.length + 1) (10, {})).outD none) ∧
+    (∀ s s', (lzxStep env f s).succ? = some s' → s.1 + 31 ≤ f.length ∧ s.1 + 31 ≤ s'.1) ∧
+    (∀ (mg : LzxMerge) (bad : Bool) (usize csize method flags dcrc : Nat), (usize > env.limit → bad = true) →
+      (lzxCheckEntry env.limit mg bad usize csize method flags dcrc).2 = true →
+      (lzxCheckEntry env.limit mg bad usize csize method flags dcrc).1.total ≤ env.limit) :=
+  ⟨(lzx_work env f).1, (lzx_work env f).2, lzxStep_progress env f,
+   fun mg bad usize csize method flags dcrc => lzxCheckEntry_total env.limit mg bad usize csize method flags dcrc⟩
+
+/-- **C02_xz_work** (xz container): a VLI is at most 9 bytes; every Block moves the position at least 8 bytes
+forward inside the file, so at most `(|file| − 12)/8 + 1` iterations of the block loop, and the number of Index
+records then read equals the number of blocks found (`8·blocks ≤ |file|`) -/
+theorem C02_xz_work (lz : Nat → Bytes → Option (Nat × List Bytes)) (ct : Nat) (f : Bytes) (h12 : 12 ≤ f.length) :
+    (∀ p limit, EndsWithin (xzVliStep f limit) 9 (p, 0, 0) 9 ∧
+        xzVli f p limit = (run (xzVliStep f limit) 9 (p, 0, 0)).outD none) ∧
+    EndsWithin (xzBlocksStep lz ct f) f.length 12 ((f.length - 12) / 8 + 1) ∧
+    xzBlocks lz ct f f.length 12 = (run (xzBlocksStep lz ct f) f.length 12).outD none ∧
+    (∀ p q, (xzBlocksStep lz ct f p).succ? = some q → p + 8 ≤ q ∧ q ≤ f.length) ∧
+    (∀ ip bs, xzBlocks lz ct f f.length 12 = some (ip, bs) → 12 + 8 * bs.length ≤ ip ∧ ip < f.length) :=
+  ⟨fun p limit => xzVli_work f p limit, (xzBlocks_work lz ct f h12).1, (xzBlocks_work lz ct f h12).2,
+   xzBlocksStep_progress lz ct f, fun ip bs h => xzBlocks_count lz ct f f.length 12 ip bs h⟩
+
+/-- **C02_zip_work** (miniz reader): the end-of-central-directory search never starts more than 69 650 bytes
+before the end; a zip64 extra-field walk over `|x|` bytes takes at most `|x|/4 + 1` iterations; the central
+directory loop takes at most `n/46 + 1` iterations for `n` directory bytes whatever record count is declared; an
+opened archive has `46·records ≤ cdirSize` and the directory inside the file -/
+theorem C02_zip_work (f : Bytes) :
+    (let lo := zipWindowLo f.length 32 (f.length - 4096); (lo = 0 ∨ 65557 ≤ f.length - lo) ∧ f.length - lo ≤ 69650) ∧
+    (∀ x fuel, x.length < fuel → EndsWithin zip64Step fuel x (x.length / 4 + 1) ∧
+        zipFindZip64 fuel x = (run zip64Step fuel x).outD (some none)) ∧
+    (∀ thisDisk k p n he, EndsWithin (zipCdirStep f thisDisk) (n / 46 + 1) (k, p, n, he) (n / 46 + 1) ∧
+        zipCdirLoop f thisDisk k p n he = (run (zipCdirStep f thisDisk) (n / 46 + 1) (k, p, n, he)).outD none) ∧
+    (∀ l, zipOpen f = some l → ∃ E : ZipEocd, zipEocd f = some E ∧ E.cdirOfs + E.cdirSize ≤ f.length ∧
+        l.length = E.total ∧ 46 * l.length ≤ E.cdirSize) :=
+  ⟨zipEocd_window f, fun x fuel h => zip64_work x fuel h, fun td k p n he => zipCdir_work f td k p n he,
+   fun l h => zipOpen_cdir_le f l h⟩
+
+/-- **C02_gzip_header**: the optional header fields (FEXTRA with its declared length, unterminated FNAME /
+FCOMMENT, FHCRC) cannot move the start of the deflate data outside `[10, |file| − 8]` -/
+theorem C02_gzip_header (f : Bytes) (p : Nat) (h : gzipDataStart f = some p) : 10 ≤ p ∧ p + 8 ≤ f.length :=
+  gzipDataStart_bounds f p h
+
+/-- **C02_lzw_work** (compress(1), `decrunch_compress`): the code loop takes at most `2·(8·|body|/9) + 1`
+iterations (a code of ≥ 9 bits or a width change per iteration, never two width changes in a row) -/
+theorem C02_lzw_work (body : Bytes) (maxbits : Nat) (bm : Bool) :
+    let d0 : Lzw.Dec := { w := Lzw.W.init, tab := Lzw.initTab bm, oldcode := none, finchar := 0, out := [] }
+    EndsWithin (lzwStep body.toArray maxbits bm) (2 * body.length + 4) d0 (2 * (8 * body.length / 9) + 1) ∧
+    Lzw.decGo body.toArray maxbits bm (2 * body.length + 4) d0 =
+      (run (lzwStep body.toArray maxbits bm) (2 * body.length + 4) d0).outD none :=
+  lzw_work body maxbits bm
+
+/-- **C02_pp_work** (PowerPacker): a count-group loop reads at most `bits/n + 1` groups; the main loop appends at
+least two bytes per iteration, so at most `dest_len/2 + 1` iterations; the output has exactly the 24-bit declared
+length (< 16 MiB, one allocation, never overrun) -/
+theorem C02_pp_work (offsetLens : Bytes) (destLen : Nat) (br : PowerPacker.BR) :
+    (∀ n todo, 0 < n → EndsWithin (countStep n) (PowerPacker.bitsAvail br + 1) (br, todo) (PowerPacker.bitsAvail br / n + 1) ∧
+        PowerPacker.readCount n (PowerPacker.bitsAvail br + 1) br todo =
+          (run (countStep n) (PowerPacker.bitsAvail br + 1) (br, todo)).outD none) ∧
+    EndsWithin (ppStep offsetLens destLen) (destLen + 1) (br, []) (destLen / 2 + 1) ∧
+    PowerPacker.mainLoop offsetLens destLen (destLen + 1) br [] =
+      (run (ppStep offsetLens destLen) (destLen + 1) (br, [])).outD none ∧
+    (∀ file out, PowerPacker.decrunchPP file = some out → out.length < 2 ^ 24) :=
+  ⟨fun n todo hn => readCount_work n hn br todo, (pp_work offsetLens destLen br).1, (pp_work offsetLens destLen br).2,
+   decrunchPP_out_len⟩
+
+/-- **C02_iff_progress** (`libxmp_iff_load`): an iteration of the chunk walk that continues has read a whole
+chunk header inside the data and continues at or after its end — for every flag combination, registered loader
+set and declared chunk length (0, 2^31, 2^32 − 1, …) -/
+theorem C02_iff_progress (c : Iff.Cfg) (hs : List Iff.Handler) (f : Bytes) (p p' : Nat)
+    (h : (Iff.chunkStep c hs f p).succ? = some p') : p + c.idSize + 4 ≤ f.length ∧ p + c.idSize + 4 ≤ p' :=
+  Iff.chunkStep_progress c hs f p p' h
+
+/-- **C02_iff_terminates**: hence at most `(|file| − start)/(id_size + 4) + 1` loop tests — `|file|/8 + 1` for the
+standard 4-byte ids -/
+theorem C02_iff_terminates (c : Iff.Cfg) (hs : List Iff.Handler) (f : Bytes) (start : Nat) :
+    EndsWithin (Iff.chunkStep c hs f) (Iff.iffFuel c f) start ((f.length - start) / (c.idSize + 4) + 1) ∧
+    (Iff.iffLoad c hs f start).res.isSome = true :=
+  ⟨Iff.iffLoad_terminates c hs f start, (Iff.iffLoad_terminates c hs f start).1⟩
+
+/-- **C02_lha_work** (`decrunch_lha` + the lhasa header reader): `skip_sfx` examines at most
+`min(|file|, 262 152) + 1` positions; the extended-header walks use up ≥ `fs + 1` / ≥ 3 bytes per header; the null
+decoder produces ≥ 1 wanted byte per block; the member walk uses up ≥ 22 bytes per skipped member, so at most
+`|file|/22 + 1` iterations.  None of the models' fuels is ever what stops a loop. -/
+theorem C02_lha_work (dec : Bytes → Bool → Bytes → Nat → Option Bytes) (f : Bytes) :
+    (EndsWithin (sfxStep f) (f.length + 1) (0, 0) (f.length + 1) ∧
+      EndsWithin (sfxStep f) (f.length + 1) (0, 0) (Container.lhaSfxLimit + 1) ∧
+      Container.skipSfx f = (run (sfxStep f) (f.length + 1) (0, 0)).outD none) ∧
+    (∀ fs (h : Container.LhaHeader) off,
+      EndsWithin (extStep fs) (h.raw.length + 1) (h, off, h.raw.length - off - fs) ((h.raw.length - off - fs) / (fs + 1) + 1) ∧
+      Container.decodeExt fs h off = (run (extStep fs) (h.raw.length + 1) (h, off, h.raw.length - off - fs)).outD none) ∧
+    (∀ (h : Container.LhaHeader) (s : Bytes), EndsWithin l1ExtStep (s.length + 1) (h, s) (s.length / 3 + 1) ∧
+      Container.readL1Ext (s.length + 1) h s = (run l1ExtStep (s.length + 1) (h, s)).outD none) ∧
+    (∀ (s : Bytes) rem want, EndsWithin nullStep (want + 1) (s, rem, want, []) (want + 1) ∧
+      Container.lhaNullRead (want + 1) s rem want [] = (run nullStep (want + 1) (s, rem, want, [])).outD none) ∧
+    (∀ i, EndsWithin (lhaStep dec) (f.length + 1) (f.drop i) ((f.length - i) / 22 + 1) ∧
+      Container.lhaWalk dec (f.length + 1) (f.drop i) = (run (lhaStep dec) (f.length + 1) (f.drop i)).outD none) :=
+  ⟨skipSfx_work f, fun fs h off => extWalk_work fs h off, fun h s => readL1Ext_work h s,
+   fun s rem want => lhaNullRead_work s rem want, fun i => lha_work dec f i⟩
+
+/-- **C02_lha_ceiling**: whatever length a member header declares (up to 2^32 − 1), the output of `decrunch_lha`
+has between 1 and `LIBXMP_DEPACK_LIMIT` bytes — the declared length is tested before anything is sized from it -/
+theorem C02_lha_ceiling (dec : Bytes → Bool → Bytes → Nat → Option Bytes) (f out : Bytes) (h : Container.unlha dec f = some out) :
+    1 ≤ out.length ∧ out.length ≤ Gen.DepackLimits.depackLimit := by
+  have := unlha_out dec f out h
+  rw [C02_depack_limit_models] at this
+  exact this
+
+/-- **C02_mmcmp_bounds** (`decrunch_mmcmp`): the declared block count is backed by 4 table bytes per block inside
+the file, every sub-block table by 8 bytes per entry; the output buffer is sized once (16 … `LIBXMP_DEPACK_LIMIT`
+bytes) and no block changes its length (for any in-place decoder of the compressed blocks); the sizes of the sub-blocks
+read come out of one budget that starts at `filesize` (/repo 353a4b5), so all blocks together write at most `filesize`
+bytes however often the block table repeats an entry -/
+theorem C02_mmcmp_bounds (dec : Nat → Nat → Nat → List (Nat × Nat) → Bytes → Bytes → Option Bytes) (f out : Bytes)
+    (hdec : ∀ a b c subs s o o', dec a b c subs s o = some o' → o'.length = o.length)
+    (h : Container.decrunchMmcmp dec f = some out) :
+    (out.length = Container.u32At f 14 ∧ 16 ≤ out.length ∧ out.length ≤ Gen.DepackLimits.depackLimit ∧
+      Container.u32At f 18 + 4 * Container.u16At f 12 ≤ f.length ∧ 1 ≤ Container.u16At f 12) ∧
+    (∀ n ofs budget l b', Container.mmSubs f n ofs budget = some (l, b') →
+      l.length = n ∧ (0 < n → ofs + 8 * n ≤ f.length) ∧ (l.map (·.2)).sum + b' = budget) := by
+  have := decrunchMmcmp_out dec f out hdec h
+  rw [C02_depack_limit_models] at this
+  exact ⟨this, mmSubs_len f⟩
+
+/-- **C02_rle90_len** (`arc_unrle90_block`): one step per input byte (the model recurses on the input), and the
+result has exactly the `dest_len` bytes the caller sized — a run count cannot overrun the buffer -/
+theorem C02_rle90_len (destLen : Nat) (src out : Bytes) (h : Container.unrle90 destLen src = some out) :
+    out.length = destLen := unrle90_len destLen src out h
+
+/-! ## Core loaders: loop trip counts are fixed ceilings, sample reads are bounded by the bytes present -/
+
+/-- loop trips of a core loader's body for validated counts `c` and a per-pattern row ceiling: order list, instrument
+and sample headers, and `patterns × rows × channels` events -/
+def coreWork (c : LoadPost.Hdr.Counts) (rows : Nat) : Nat :=
+  c.len.toNat + c.ins.toNat + c.smp.toNat + c.pat.toNat * rows * c.chn.toNat
+
+/-- 256 orders + 255 instruments + 1024 samples + 257 patterns × 1024 rows × 64 channels -/
+def coreWorkCeiling : Nat := 256 + 255 + 1024 + 257 * 1024 * 64
+
+theorem coreWork_le (c : LoadPost.Hdr.Counts) (rows : Nat) (h : LoadPost.Hdr.CountOblig c = true) (hr : rows ≤ 1024) :
+    coreWork c rows ≤ coreWorkCeiling := by
+  have e1 : (Gen.Limits.xmpMaxChannels : Int) = 64 := rfl
+  have e2 : (Gen.Limits.xmpMaxModLength : Int) = 256 := rfl
+  have e3 : (Gen.Limits.epiPatMax : Int) = 257 := rfl
+  have e4 : (Gen.Limits.epiInsMax : Int) = 255 := rfl
+  have e5 : (Gen.Limits.maxSamples : Int) = 1024 := rfl
+  simp only [LoadPost.Hdr.CountOblig, Bool.and_eq_true, decide_eq_true_eq, e1, e2, e3, e4, e5] at h
+  obtain ⟨⟨⟨⟨⟨⟨⟨⟨⟨⟨⟨h1, h2⟩, h3⟩, h4⟩, h5⟩, h6⟩, h7⟩, h8⟩, h9⟩, h10⟩, _⟩, _⟩ := h
+  have p1 : c.pat.toNat * rows ≤ 257 * 1024 := Nat.mul_le_mul (by omega) hr
+  have p2 : c.pat.toNat * rows * c.chn.toNat ≤ 257 * 1024 * 64 := Nat.mul_le_mul p1 (by omega)
+  unfold coreWork coreWorkCeiling
+  omega
+
+/-- **C02_core_loader_work**: for each of the four core loaders (MOD, S3M, XM, IT) every header the loader accepts
+— whatever it declares — yields counts whose loop trip total (orders + instruments + samples +
+patterns × rows × channels, rows ≤ 256 resp. ≤ 1024 as validated per pattern) is below one fixed ceiling of the
+library (`coreWorkCeiling` ≈ 16.8 M trips), independent of every other declared size; and each sample load consumes
+at most the bytes present and allocates at most `2·avail + 20` (`4·avail + 20` for ADPCM) bytes, never the declared
+sample length (C20).  Corollary of `C03_hdr_*`, `C03_hdr_rows` and `Sample.alloc_le` / `C20_truncation`. -/
+theorem C02_core_loader_work :
+    (∀ magic wow probe len restart orders c, len ≤ 255 →
+      LoadPost.Hdr.modHeader magic wow probe len restart orders = some c → coreWork c Gen.C03Hdr.modRows ≤ coreWorkCeiling) ∧
+    (∀ ffi ordnum insnum patnum magicOK chset orders c,
+      LoadPost.Hdr.s3mHeader ffi ordnum insnum patnum magicOK chset orders = some c → coreWork c Gen.C03Hdr.s3mRows ≤ coreWorkCeiling) ∧
+    (∀ songlen restart channels patterns instruments tempo bpm headersz med2xm smp c, smp ≤ Gen.Limits.maxSamples →
+      LoadPost.Hdr.xmHeader songlen restart channels patterns instruments tempo bpm headersz med2xm smp = some c →
+      ∀ version field r, LoadPost.Hdr.xmPatRows version field = some r → coreWork c r ≤ coreWorkCeiling) ∧
+    (∀ ordnum insnum smpnum patnum gv sampleMode maxCh c, maxCh ≤ Gen.C03Hdr.itChannelMask →
+      LoadPost.Hdr.itHeader ordnum insnum smpnum patnum gv sampleMode maxCh = some c →
+      ∀ offset n r, LoadPost.Hdr.itPatRows offset n = some r → coreWork c r ≤ coreWorkCeiling) ∧
+    (∀ flags (h : Sample.Hdr) skip (f : Option Bytes) buffer, Sample.BufferOk flags h buffer →
+      ¬ Sample.Skips flags h skip f → Sample.fl flags Sample.Gen.SAMPLE_FLAG_NOLOAD = false →
+      Sample.consumedBytes flags h f ≤ Sample.avail f ∧
+      Sample.totalAlloc flags h f ≤ (if Sample.fl flags Sample.Gen.SAMPLE_FLAG_ADPCM then 4 * Sample.avail f else 2 * Sample.avail f) + 20) := by
+  refine ⟨?_, ?_, ?_, ?_, ?_⟩
+  · intro magic wow probe len restart orders c hl h
+    exact coreWork_le c _ (LoadPost.C03_hdr_mod magic wow probe len restart orders c hl h).1 (by decide)
+  · intro ffi ordnum insnum patnum magicOK chset orders c h
+    exact coreWork_le c _ (LoadPost.C03_hdr_s3m ffi ordnum insnum patnum magicOK chset orders c h).1 (by decide)
+  · intro songlen restart channels patterns instruments tempo bpm headersz med2xm smp c hs h version field r hr
+    have := (LoadPost.C03_hdr_rows.1 version field r hr).2
+    exact coreWork_le c r (LoadPost.C03_hdr_xm songlen restart channels patterns instruments tempo bpm headersz med2xm smp c hs h).1 (by omega)
+  · intro ordnum insnum smpnum patnum gv sampleMode maxCh c hch h offset n r hr
+    have := (LoadPost.C03_hdr_rows.2.1 offset n r hr).2
+    exact coreWork_le c r (LoadPost.C03_hdr_it ordnum insnum smpnum patnum gv sampleMode maxCh c hch h).1 this
+  · intro flags h skip f buffer hbuf hs hN
+    obtain ⟨h', a, c, _, _, _, _, _, hc, hle⟩ := (Sample.C20_truncation flags h skip f buffer hbuf).2 hs
+    exact ⟨by rw [← hc]; exact hle hN, ((Sample.alloc_le flags h f buffer hbuf).1 hN).2⟩
+
+/-- **C02_umx_names_terminate** (`read_typname`, the Unreal package name-table walk used by `umx_test` and
+`umx_load`): an iteration that continues has read at least one byte of the file at `name_offset + l` and moved `l`
+at least 5 bytes forward (a counted length ≤ 0 — a negative length byte such as 0xFB — ends the walk), so the loop
+runs at most `(|file| − name_offset)/5 + 2` times whatever type-name index (up to 2^31 − 2) and name count the
+package declares -/
+theorem C02_umx_names_terminate (f : Bytes) (nameCount nameOfs : Nat) (v64 : Bool) (idx : Nat) :
+    (Umx.readTypname f nameCount nameOfs v64 idx).res.isSome = true ∧
+    (Umx.readTypname f nameCount nameOfs v64 idx).iters ≤ (f.length - nameOfs) / 5 + 2 ∧
+    (∀ s s', (Umx.nameStep f nameOfs v64 s).succ? = some s' →
+      nameOfs + s.l < f.length ∧ s.l + 5 ≤ s'.l ∧ s'.left + 1 = s.left) :=
+  ⟨(Umx.readTypname_isSome f nameCount nameOfs v64 idx).1, (Umx.readTypname_isSome f nameCount nameOfs v64 idx).2,
+   Umx.nameStep_progress f nameOfs v64⟩
+
+/-- a name whose length byte is 0xFB (−5): the walk for index 2^31 − 2 ends at once with −1 -/
+example : ((Umx.readTypname ([0xfb, 0x4d, 0, 0, 0, 0, 0] ++ List.replicate 20 7) 0x7fffffff 0 true 0x7ffffffe).res,
+    (Umx.readTypname ([0xfb, 0x4d, 0, 0, 0, 0, 0] ++ List.replicate 20 7) 0x7fffffff 0 true 0x7ffffffe).iters) = (some none, 1) := by
+  decide
+
+/-- **C02_scan_visit_counter_saturates** (`scan_module`, `FX_IT_ROWDELAY` on any number of channels of one row):
+the per-row visit counter `scan_cnt[ord][row]` is what makes the scan stop at a row it has already played.  Every
+row delay adds `p1 & 0x0f` to it with `MIN(…, 255)` — saturating, not wrapping — so whatever sequence of row-delay
+effects (one per channel, up to 64 on a row) is applied, the counter of **every** row that was visited stays
+non-zero: a visited row can never look unvisited again.  This is the hypothesis-free fact behind
+`C02_scan_terminates` (which holds for every `LinMod`, modules with row delays included: `C18_scan_terminates`
+has no well-formedness premise; `ModWF` only restricts the *duration* theorems). -/
+theorem C02_scan_visit_counter_saturates (c : List (List Nat)) (ord row : Nat) (fxs : List LinFlow.Fx) (o' r' : Nat)
+    (h : LinFlow.cntAt c o' r' ≠ 0) :
+    LinFlow.cntAt (fxs.foldl (fun c fx => LinFlow.cntBump c ord row fx) c) o' r' ≠ 0 := by
+  induction fxs generalizing c with
+  | nil => exact h
+  | cons fx rest ih => exact ih _ (LinFlow.cntAt_cntBump_pos c ord row fx o' r' h)
+
+/-- 17 channels of `SEF` on the row just visited (counter 1): 1 + 17·15 = 256 would be 0 in a byte; the counter
+saturates at 255 instead -/
+example : LinFlow.cntAt ((List.replicate 17 (LinFlow.Fx.rowdelay 15)).foldl (fun c fx => LinFlow.cntBump c 0 0 fx) [[1]]) 0 0 = 255 := by
+  decide
+
+/-! Non-vacuity: a chunk declaring 2^32 − 1 bytes does not stop the walk from reaching the end (3 loop tests for
+two chunks), and a walk that needs its bound. -/
+example : ((Iff.iffLoad { idSize := 4, flags := 0, clamp := true } [] ([0x41, 0x41, 0x41, 0x41, 0, 0, 0, 0, 0x42, 0x42, 0x42, 0x42, 0xff, 0xff, 0xff, 0xff, 1, 2]) 0).iters,
+    ((Iff.iffLoad { idSize := 4, flags := 0, clamp := true } [] ([0x41, 0x41, 0x41, 0x41, 0, 0, 0, 0, 0x42, 0x42, 0x42, 0x42, 0xff, 0xff, 0xff, 0xff, 1, 2]) 0).res.map (·.1))) = (3, some true) := by decide
+example : (run zip64Step 5 [9, 0, 0, 0, 1, 0, 2, 0, 7, 7]).res = some (some (some [7, 7])) := by decide
+
+/-! Non-vacuity of the hypotheses above: an ArcFS header declaring one 36-byte entry in a 132-byte file is accepted
+(so `C02_arcfs_work` applies, bound 2); a gzip header with FNAME; an S3M and an IT header at their limits with their
+loop totals; an MMCMP block table of two entries. -/
+set_option maxRecDepth 8000 in
+example : arcfsHeader ([0x41, 0x72, 0x63, 0x68, 0x69, 0x76, 0x65, 0] ++ [36, 0, 0, 0] ++ [132, 0, 0, 0] ++ [4, 1, 0, 0] ++ [4, 1, 0, 0] ++
+    [10, 0, 0, 0] ++ List.replicate 104 0) = some (36, 132) := by decide
+example : gzipDataStart ([0x1f, 0x8b, 8, 8, 0, 0, 0, 0, 0, 3, 0x61, 0] ++ List.replicate 8 0) = some 12 := by decide
+example : (LoadPost.Hdr.s3mHeader 2 255 99 100 true [0, 1, 2, 3] [0, 5, 254, 99]).map (fun c => coreWork c Gen.C03Hdr.s3mRows) = some 26053 := by decide
+example : (LoadPost.Hdr.itHeader 300 99 99 200 128 false 63).map (fun c => (c.len, coreWork c 1024)) = some (256, 13107654) := by decide
+example : Container.mmTable [1, 0, 0, 0, 2, 0, 0, 0] 2 0 = some [1, 2] := by decide
+example : coreWorkCeiling = 16844287 := by decide
 
 end Xmp.C02
